@@ -314,9 +314,10 @@ def gen_core(ctx):
     for order in ("top-down", "bottom-up", "mixed"):
         for _ in range(ctx.n(2, 10)):
             out.append(("threegen", G.make_threegen_instance(rng, sibling=False, order=order), False))
-    for order in (("bottom-up",) if ctx.quick else ("top-down", "bottom-up", "mixed")):
-        for _ in range(ctx.n(1, 2)):
-            out.append(("threegen-sib", G.make_threegen_instance(rng, sibling=True, order=order), False))
+    # with a sibling (6 individuals, 3 trios: 64 transmission values x 64 assignments, minutes per instance in Coq):
+    # thorough tier only, one read, one shared evaluation (L1 through C08_posterior_exact)
+    for order in (() if ctx.quick else ("bottom-up", "mixed")):
+        out.append(("threegen-sib", G.make_threegen_instance(rng, sibling=True, order=order, one_read=True), False))
     # value dimensions the main classes do not reach: large / odd qualities (incl. the >= 256 code path), large
     # recombination costs, hard (zero) priors, 7-8 active reads, positions=None, the empty read set
     for _ in range(ctx.n(10, 150)):
@@ -397,7 +398,7 @@ def check_core(ctx, labelled, tag="core"):
             # over the specification columns (no tables), at the column of highest coverage only
             k = max(len(c) for c in G.active_columns(inst))
             checks = [("L1raw", 400 * 2 ** k), ("L1sum", 1)]
-        elif nr <= (5 if label.endswith("-profile") else 6) and not (label == "trio-profile" and nr > 3):
+        elif label != "threegen-sib" and nr <= (5 if label.endswith("-profile") else 6) and not (label == "trio-profile" and nr > 3):
             checks = [("L2", cost), ("L1chain", cost * (1 + 2 ** max(0, nr - 6) // 8)), ("L1sum", 1)]
         else:
             # one evaluation of fb_run serves as L2 and, through the theorem, as L1
@@ -583,7 +584,7 @@ def cli_plan(ctx, n):
     ped = [("pedextra", {"extra_first": True, "twochrom": False}), ("pedextra", {"extra_first": False, "twochrom": True}),
            ("pedplus", {"extra_first": True, "twochrom": False}), ("quartet", {"twochrom": False}),
            ("pedextra", {"extra_first": True, "twochrom": True}), ("pedextra", {"extra_first": False, "twochrom": False}),
-           ("pedplus", {"extra_first": False, "twochrom": True}), ("quartet", {"twochrom": False})]
+           ("pedplus", {"extra_first": False, "twochrom": True}), ("threegen", {"twochrom": False})]
     cycle = []
     for i in range(8):
         cycle += [base[i % 2], multi[i], ped[i]]
@@ -604,6 +605,8 @@ def cli_spec(rng, kind, opt):
         nsmp = 4
     elif kind == "quartet":
         nsmp = 4
+    elif kind == "threegen":
+        nsmp = 5
     else:
         nsmp = 4 + (1 if rng.random() < 0.3 else 0)
     # sample names are drawn at random: roles must not follow from names or their sort order
@@ -625,6 +628,12 @@ def cli_spec(rng, kind, opt):
         f, m, c = rng.sample(fam, 3)
         roles = {"father": f, "mother": m, "children": [c]}
         ped_trios = [(c, f, m)]
+    elif kind == "threegen":
+        # grandparents -> parent; parent + married-in parent -> grandchild; the PED file lists the grandchild FIRST
+        gf, gm, par, oth, kid = rng.sample(names, 5)
+        f, m = (par, oth) if rng.random() < 0.5 else (oth, par)
+        roles = {"father": f, "mother": m, "children": [kid], "grand": [gf, gm, par]}
+        ped_trios = [(kid, f, m), (par, gf, gm)]
     elif kind == "quartet":
         f, m, c1, c2 = rng.sample(names, 4)
         roles = {"father": f, "mother": m, "children": [c1, c2]}
@@ -636,26 +645,33 @@ def cli_spec(rng, kind, opt):
     elif kind == "multi4":
         selected = rng.sample(names, rng.randint(1, 3))
     nchrom = 2 if opt.get("twochrom") else 1
-    small = kind == "quartet"
-    nvars = rng.randint(2, 3) if small else (rng.randint(3, 6) if nchrom == 1 else rng.randint(2, 4))
-    kinds = ("snv",) if rng.random() < 0.5 else ("snv", "ins", "del", "mnp")
+    small = kind in ("quartet", "threegen")
+    nvars = (rng.randint(3, 4) if kind == "threegen" else rng.randint(2, 3)) if small else (rng.randint(3, 6) if nchrom == 1 else rng.randint(2, 4))
+    kinds = ("snv",) if (kind == "threegen" or rng.random() < 0.5) else ("snv", "ins", "del", "mnp")
     sc = synth.make_scenario(rng, nchrom=nchrom, nsamples=len(names), nvars=nvars, kinds=kinds, sample_names=names)
     for chrom in sc.chroms:
+        if "grand" in roles:
+            gf_, gm_, par_ = roles["grand"]
+            sc.haps[par_][chrom] = synth.inherit(rng, sc.haps[gf_][chrom], sc.haps[gm_][chrom])[0]
         for ch in roles.get("children", []):
             sc.haps[ch][chrom] = synth.inherit(rng, sc.haps[roles["father"]][chrom], sc.haps[roles["mother"]][chrom])[0]
-    famset = set([roles.get("father"), roles.get("mother")] + roles.get("children", [])) - {None}
+    famset = set([roles.get("father"), roles.get("mother")] + roles.get("children", []) + roles.get("grand", [])) - {None}
+    # three generations: 16 transmission values x 64 assignments; reads only for the grandchild and one grandparent
+    reads_only = {roles["children"][0], rng.choice(roles["grand"][:2])} if kind == "threegen" else None
     # dimensions of the read data: a chromosome / a sample without any read, paired reads, several read groups
     noreads_chrom = sc.chroms[-1] if (nchrom == 2 and rng.random() < 0.25) else None
     noreads_sample = rng.choice(names) if (len(names) > 1 and rng.random() < 0.2) else None
     reads = []
     for chrom in sc.chroms:
         for s in names:
-            if chrom == noreads_chrom or s == noreads_sample:
+            if chrom == noreads_chrom or s == noreads_sample or (reads_only is not None and s not in reads_only):
                 continue
             nr = (1 if small else rng.randint(1, 2)) if s in famset else rng.randint(3, 5)
-            reads += synth.simulate_reads(rng, sc, s, chrom, nr, len_range=(120, 320), name_prefix=f"{s}_{chrom}_",
-                                          qual=rng.choice([10, 20, 30, 40]), paired_fraction=rng.choice([0.0, 0.0, 0.5]))
-    args = dict(reference=None, max_coverage=(8 if small else 6) if famset else rng.choice([3, 4, 6, 15]),
+            reads += synth.simulate_reads(rng, sc, s, chrom, nr, len_range=(330, 450) if kind == "threegen" else (120, 320),
+                                          name_prefix=f"{s}_{chrom}_",
+                                          qual=rng.choice([10, 20, 30, 40]),
+                                          paired_fraction=0.0 if kind == "threegen" else rng.choice([0.0, 0.0, 0.5]))
+    args = dict(reference=None, max_coverage=(10 if kind == "threegen" else 8 if small else 6) if famset else rng.choice([3, 4, 6, 15]),
                 nopriors=rng.random() < 0.5,
                 gt_qual_threshold=rng.choice([0, 0, 3, 10, 20, 60, 0.5, 7.5, 100] if kind in ("single", "trio")
                                              else [0, 0, 0, 3, 3, 10, 0.5]),
@@ -753,6 +769,8 @@ def cli_tallies(ctx, spec):
     if spec["roles"]:
         r = spec["roles"]
         pos = {s: i for i, s in enumerate(spec["names"])}
+        if "grand" in r:
+            ctx.tally("cli.ped-lists-grandchild-first")
         ctx.tally("cli.family-column-order=" + "".join(
             x for _, x in sorted([(pos[r["father"]], "F"), (pos[r["mother"]], "M")] + [(pos[c], "C") for c in r["children"]]
                                  + [(pos[s], "x") for s in spec["names"] if s not in spec["genotyped"] or
